@@ -23,6 +23,26 @@ CHECKS = {
    "Seeded search over arrival schedules of real fragments (produced by the real fragmenter through MTU chains) into the real Reassembly: permutation, interleaving across datagrams, loss, duplication before and after completion, overlapping pieces, and reassembly timers on a virtual clock; reference interval-set model decides when a datagram must be returned and when a buffer must be gone; returned header and payload are compared byte for byte.",
    "Reassembly is driven directly (the shipped Ipv4::demux builds a fresh Reassembly per packet); the timer task of Ipv4Session::receive is a virtual timer list; datagrams that share a buffer id carry the same payload.",
    "deterministic simulation: seeded arrival/timer schedule search with interval-set reference model"),
+ "C02": ("E2 netsim", "exploration", "6 C02",
+   "The complete real stack (Socket/SocketAPI/Tcp+TcpSession+Tcb/Udp/Ipv4/Arp/Pci/Network) on virtual time with a seeded task scheduler and seeded frame faults (bounded loss, duplication, delay); generated write and read scripts; byte-exact prefix/complete-stream oracle per connection, recv(n) bound, datagram intactness and peer isolation.",
+   "Runtime flavour and worker count are represented by seeded poll deferrals on one thread (every order in which ready tasks can start); intra-poll data races of a real multi-thread runtime are out of reach (DESIGN.md section 7).",
+   "deterministic simulation: whole stack on paused tokio clock, seeded scheduler and frame-fault hook, stream reference oracle"),
+ "C04": ("E2 netsim", "exploration", "6 C04",
+   "Generated machine sets with exact / wildcard / limited-broadcast / duplicate UDP bindings on four recording applications per machine, with and without ARP; every delivery is predicted by a small reference model from the frames seen on the wire and compared both ways (exactly-once, nobody else, true source in Control).",
+   "Delivery of a machine's own broadcast frame to itself is neither required nor forbidden; one tap per network per machine.",
+   "deterministic simulation: seeded configurations, frame delays and task orders with reference binding model"),
+ "C05": ("E2 netsim", "exploration", "6 C05",
+   "Real Network/Pci on virtual time: generated networks (MTU, constant/variable latency and throughput) and taps, concurrent send_pci plans around the MTU boundary; exact-delivery, isolation, DemuxInfo, MAC uniqueness and exact virtual-time lower bounds for latency and throughput serialisation.",
+   "Timing is checked on tokio's paused clock; the latency/throughput random draws come from the simulator.",
+   "deterministic simulation: seeded configurations and task orders on virtual time with exact timing oracle"),
+ "C06": ("E2 netsim", "fault_enumeration", "6 C06",
+   "Real Arp/Ipv4/Pci with generated claims, subnets and gateways and groups of concurrent resolvers; loss patterns over ARP frames 'first k requests lost then m replies lost' (k+m<=10, drawn per run) plus random subsets, delays and duplicates through the frame hook; resolved MAC must be the owner's or the gateway's, success when an exchange got through, bounded failure, agreement of concurrent resolvers.",
+   "Patterns are drawn per run rather than listed exhaustively per topology; every address claimed by at most one machine.",
+   "deterministic simulation: fault enumeration over ARP request/reply loss patterns with seeded schedules"),
+ "C13": ("E2 netsim", "exploration", "6 C13",
+   "Real run_internet / run_internet_with_timeout / Machine::start / Shutdown with harness applications that are slow to initialise, send as early as the contract allows, request shutdown early/late/simultaneously with distinct statuses or never return; barrier order by the global event counter, status = first request in event order, timeout bound in virtual time.",
+   "Initialisation of built-in protocols is not observable; the barrier is checked against the harness applications' initialisation events.",
+   "deterministic simulation: seeded task orders of initialisation and shutdown on virtual time"),
 }
 
 NOT_APPLICABLE = {
@@ -69,6 +89,8 @@ def main():
         "engines": [
             {"name": "E1 tcbsim", "path": "/verif/harness/src/e1.rs", "serves_properties": ["C01", "C03", "C12", "C17"],
              "kind_free_text": "discrete-event simulator over two real Tcb objects: seeded scheduler picks among writes, reads, clock ticks, deliver-any/drop/duplicate, closes, old SYNs, forged segments"},
+            {"name": "E2 netsim", "path": "/verif/harness/src/sim.rs", "serves_properties": ["C02", "C04", "C05", "C06", "C13", "C14", "C15", "C16", "C18", "C19", "C20"],
+             "kind_free_text": "the whole real Elvis stack on one thread: tokio current-thread runtime with paused (virtual) clock, seeded task scheduler (poll deferral through the verif spawn shim), seeded per-frame network verdicts (drop/duplicate/delay/corrupt) through the verif frame hook, seeded randomness; worker processes because a panic exits the process"},
             {"name": "E3 fragsim", "path": "/verif/harness/src/e3.rs", "serves_properties": ["C11"],
              "kind_free_text": "discrete-event simulator over the real IPv4 Reassembly: seeded arrival schedules of real fragments with loss/duplication/overlap and a virtual reassembly-timer clock"},
         ],
